@@ -758,6 +758,80 @@ pub fn run(ctx: &mut Ctx) {
         }
     }
 
+    // ----------------------------------------------------------------------------------
+    // Family E: the cleartext framework is a fourth canonicalisation site. The LF and the CR LF form of the same
+    // document (lines with and without trailing blanks) carry the same signed text, and a message signed in one
+    // form verifies after the whole document was converted to the other.
+    {
+        let line_bodies: [&str; 6] = ["a", "a ", "a \t", "", " ", "- a\t "];
+        let key4 = &key;
+        let mut ei = 0u64;
+        for nl in 1..=ctx.qt(2usize, 3usize) {
+            let total = line_bodies.len().pow(nl as u32);
+            for idx in 0..total {
+                for final_eol in [true, false] {
+                    ei += 1;
+                    if !ctx.mine() {
+                        continue;
+                    }
+                    let mut lines = vec![];
+                    let mut x = idx;
+                    for _ in 0..nl {
+                        lines.push(line_bodies[x % line_bodies.len()]);
+                        x /= line_bodies.len();
+                    }
+                    let mk = |eol: &str| {
+                        let mut t = lines.join(eol);
+                        if final_eol {
+                            t.push_str(eol);
+                        }
+                        t
+                    };
+                    let (t_lf, t_crlf) = (mk("\n"), mk("\r\n"));
+                    ctx.cover(&("E", &t_lf));
+                    let mut rng = ctx.rng("E", ei);
+                    let replay = json!({"family": "E", "text_lf": t_lf});
+                    let signed = ctx.guarded("C14/cleartext", || replay.clone(), || {
+                        let a = pgp::composed::CleartextSignedMessage::sign(&mut rng, &t_lf, &key4.primary_key, &Password::empty());
+                        let b = pgp::composed::CleartextSignedMessage::sign(&mut rng, &t_crlf, &key4.primary_key, &Password::empty());
+                        (a, b)
+                    });
+                    ctx.eval();
+                    let Some((Ok(a), Ok(b))) = signed else {
+                        ctx.violation("C14/cleartext/sign-error", format!("signing {:?} failed", t_lf), replay.clone());
+                        continue;
+                    };
+                    if a.signed_text() != b.signed_text() {
+                        ctx.violation(
+                            "C14/cleartext/signed-text-differs-between-lf-and-crlf",
+                            format!("signed_text() of the LF form {:?} and of the CR LF form {:?} of the same document differ", a.signed_text(), b.signed_text()),
+                            replay.clone(),
+                        );
+                    }
+                    // convert each written document to the other line-ending style as a whole and verify
+                    for (name, m, to_crlf) in [("lf->crlf", &a, true), ("crlf->lf", &b, false)] {
+                        let Ok(doc) = m.to_armored_string(Default::default()) else { continue };
+                        let lf_doc = doc.replace("\r\n", "\n");
+                        let conv = if to_crlf { lf_doc.replace('\n', "\r\n") } else { lf_doc };
+                        let r = ctx.guarded("C14/cleartext", || replay.clone(), || -> Result<(), String> {
+                            let (m2, _) = pgp::composed::CleartextSignedMessage::from_string(&conv).map_err(|e| format!("parse: {e}"))?;
+                            m2.verify(&pubkey).map(|_| ()).map_err(|e| format!("verify: {e}"))
+                        });
+                        ctx.eval();
+                        ctx.seen("E.conversion", name);
+                        if let Some(Err(e)) = r {
+                            ctx.violation(
+                                format!("C14/cleartext/not-invariant/{name}"),
+                                format!("cleartext message over {:?} does not verify after the document was converted {name}: {e}", t_lf),
+                                json!({"base": replay, "document": conv}),
+                            );
+                        }
+                    }
+                }
+            }
+        }
+    }
+
     if hooks::available() {
         let want = ["0-CR", "0-LF", "0-x", "1-CR", "1-LF", "1-x"];
         let have = ctx.sets.get("hook.norm.hash_buf(last_was_cr,first)").cloned().unwrap_or_default();
